@@ -26,7 +26,8 @@ Recognised shapes (anything else raises Untranslatable -> tie broken):
     args := p | <const> | *p | k=p | k=<const> | **p ;  callee := a builtin name | a module function
   _find_originating_frame: pinned statement shape (hand-modelled in Builtins/Frames.v)
   eval/super/locals/globals _in_original_context: the `innermost=` flag of their frame search and
-    what they read from the frame
+    what they read from the frame; for locals/globals whether the frame's own mapping object or a
+    copy of it is handed out (ctx_ns_gen)
   converted_call: the `if inspect_utils.isbuiltin(f):` block: `if f is <b>: return py_builtins.<fn>(...)`*
     then `if kwargs: return overload_of(f)(*args, **kwargs) else: return overload_of(f)(*args)`
 """
@@ -329,6 +330,7 @@ def _frames(funcs):
         _fail(ff, '_find_originating_frame default of innermost')
     default_inner = dflt[0].value
     out = []
+    ns = []
     for b, fname in (('eval', 'eval_in_original_context'), ('super', 'super_in_original_context'),
                      ('locals', 'locals_in_original_context'), ('globals', 'globals_in_original_context')):
         fn = funcs.get(fname)
@@ -350,11 +352,26 @@ def _frames(funcs):
             if k.arg != 'innermost' or not isinstance(k.value, ast.Constant):
                 _fail(c, 'innermost argument')
             inner = bool(k.value.value)
-        src = ast.unparse(fn)
-        if b == 'locals':
-            ok = src.rstrip().endswith('.f_locals') and len(_nodoc(fn.body)) == 1
-        elif b == 'globals':
-            ok = src.rstrip().endswith('.f_globals') and len(_nodoc(fn.body)) == 1
+        if b in ('locals', 'globals'):
+            # what is handed out: the frame's own mapping object (Live) or a copy of it (Snapshot);
+            # anything else fails closed
+            attr = 'f_' + b
+            stmts = _nodoc(fn.body)
+            ok = False
+            if len(stmts) == 1 and isinstance(stmts[0], ast.Return) and stmts[0].value is not None:
+                v = stmts[0].value
+
+                def own(e):
+                    return isinstance(e, ast.Attribute) and e.attr == attr and e.value is c
+                if own(v):
+                    ok = True
+                    ns.append('(%s, Live)' % cstr(b))
+                elif (isinstance(v, ast.Call) and not v.keywords and len(v.args) == 1 and isinstance(v.func, ast.Name)
+                      and v.func.id == 'dict' and own(v.args[0])) or \
+                     (isinstance(v, ast.Call) and not v.keywords and not v.args and isinstance(v.func, ast.Attribute)
+                      and v.func.attr == 'copy' and own(v.func.value)):
+                    ok = True
+                    ns.append('(%s, Snapshot)' % cstr(b))
         elif b == 'eval':
             body = [ast.unparse(s) for s in _nodoc(fn.body)]
             ok = body == ['ctx_frame = _find_originating_frame(caller_fn_scope, innermost=%s)' % inner,
@@ -372,7 +389,7 @@ def _frames(funcs):
         if not ok:
             _fail(fn, fname + ' body is not the pinned shape')
         out.append('(%s, %s)' % (cstr(b), 'true' if inner else 'false'))
-    return clist(out)
+    return clist(out), clist(ns)
 
 
 def _converted_call(repo):
@@ -581,7 +598,11 @@ def translate(repo):
     out.append(';\n'.join('   (%s, %s)' % (cstr(n), done[n]) for n in sorted(done)))
     out.append('  ].')
     out.append('(* context builtin -> does its frame search stop at the innermost match *)')
-    out.append('Definition ctx_gen : list (string * bool) := %s.' % _frames(funcs))
+    ctx, ctx_ns = _frames(funcs)
+    out.append('Definition ctx_gen : list (string * bool) := %s.' % ctx)
+    out.append('(* locals / globals: is the mapping handed out the own object of the frame or a copy (Builtins/Namespaces.v) *)')
+    out.append('Require Import MV.Builtins.Namespaces.')
+    out.append('Definition ctx_ns_gen : ns_table := %s.' % ctx_ns)
     out.append('(* builtins that converted_call routes to the *_in_original_context functions *)')
     out.append('Definition routed_gen : list string := %s.' % _converted_call(repo))
     kwl, argl = _partial_branch(repo)
